@@ -166,7 +166,14 @@ def file_sources(ctx):
                     (r'<ReadDir as IntoIterator>::into_iter$|as IntoIterator>::into_iter$', s_identity), (r'as Iterator>::next$', s_iter_next), (r'as Deref>::deref$', s_identity),
                     (r'as From<.*>>::from$', lambda ex, st, f, a, t: [(st, named(st, st.fresh_name('converted'), t or 'err'))])]
             ex = ctx.exec(summaries=summ, max_visits=12)
-            F = ex.find(r'^<impl at src/lib.rs:[^>]*>::read_file$')
+            try:
+                F = ex.find(r'^<impl at src/lib.rs:[^>]*>::read_file$')
+            except Broken:
+                # the file loop was restructured: undecided here, the native battery (file against stdin, failing entry) is the witness
+                if not any(c.role == 'directory' for c in fd.candidates):
+                    fd.obligations += 1; fd.witnesses += 1
+                    fd.candidates.append(Candidate(fd.name, 'directory', 'Master::read_file is not there any more: how files and directories are read is outside this scenario', {}, unmodelled='read_file restructured'))
+                break
             st = State(); iref = slot(st, BV(z3.BitVec('index', 64)), 'INDEX')
             ex.new_frame(st, F, [slot(st, named(st, 'SELF', 'Master'), 'self*'), slot(st, named(st, 'DIR', 'PathBuf'), 'dir*'), iref, slot(st, named(st, 'PROCESS', 'dyn Process'), 'process*')])
             for d in ex.run(st):
